@@ -173,17 +173,16 @@ theorem sumLoop_ac : ∀ (fuel : Nat) (queue done : List Expr), CleanQ .sum queu
     split
     · rename_i cs
       have hcs := cleanQ_of_guard (Or.inl rfl) hg
-      have hq' : CleanQ .sum (queue ++ cs) := hq.tail.append hcs.2
-      have hf' : stepsOL .sum (queue ++ cs) < fuel := by
+      have hq' : CleanQ .sum (cs ++ queue) := hcs.2.append hq.tail
+      have hf' : stepsOL .sum (cs ++ queue) < fuel := by
         rw [stepsOL_append]; simp only [stepsO, if_true] at hf; omega
-      have ih := sumLoop_ac fuel (queue ++ cs) done hq' hf'
-        (Or.inr (fun h => hcs.1 (List.append_eq_nil_iff.1 h).2))
+      have ih := sumLoop_ac fuel (cs ++ queue) done hq' hf'
+        (Or.inr (fun h => hcs.1 (List.append_eq_nil_iff.1 h).1))
       refine ⟨ih.1, ih.2.trans ?_⟩
       have h1 : ACEq (.nary .sum (done ++ Expr.nary .sum cs :: queue))
           (.nary .sum (done ++ cs ++ queue)) := ACEq.flat done cs queue (Or.inl rfl)
-      refine ACEq.trans (ACEq.perm (Or.inl rfl) ?_) h1.symm
-      simp only [List.append_assoc]
-      exact List.Perm.append_left done List.perm_append_comm
+      rw [List.append_assoc] at h1
+      exact h1.symm
     · have hf' : stepsOL .sum queue < fuel := by
         have : 1 ≤ stepsO .sum item := by
           cases item <;> simp only [stepsO] <;> (try split) <;> omega
@@ -210,17 +209,16 @@ theorem prodLoop_ac : ∀ (fuel : Nat) (queue done : List Expr), CleanQ .prod qu
     split
     · rename_i cs
       have hcs := cleanQ_of_guard (Or.inr rfl) hg
-      have hq' : CleanQ .prod (queue ++ cs) := hq.tail.append hcs.2
-      have hf' : stepsOL .prod (queue ++ cs) < fuel := by
+      have hq' : CleanQ .prod (cs ++ queue) := hcs.2.append hq.tail
+      have hf' : stepsOL .prod (cs ++ queue) < fuel := by
         rw [stepsOL_append]; simp only [stepsO, if_true] at hf; omega
-      obtain ⟨res, h1, h2, h3⟩ := prodLoop_ac fuel (queue ++ cs) done hq' hf'
-        (Or.inr (fun h => hcs.1 (List.append_eq_nil_iff.1 h).2))
+      obtain ⟨res, h1, h2, h3⟩ := prodLoop_ac fuel (cs ++ queue) done hq' hf'
+        (Or.inr (fun h => hcs.1 (List.append_eq_nil_iff.1 h).1))
       refine ⟨res, h1, h2, h3.trans ?_⟩
       have h4 : ACEq (.nary .prod (done ++ Expr.nary .prod cs :: queue))
           (.nary .prod (done ++ cs ++ queue)) := ACEq.flat done cs queue (Or.inr rfl)
-      refine ACEq.trans (ACEq.perm (Or.inr rfl) ?_) h4.symm
-      simp only [List.append_assoc]
-      exact List.Perm.append_left done List.perm_append_comm
+      rw [List.append_assoc] at h4
+      exact h4.symm
     · have hf' : stepsOL .prod queue < fuel := by
         have : 1 ≤ stepsO .prod item := by
           cases item <;> simp only [stepsO] <;> (try split) <;> omega
